@@ -104,6 +104,8 @@ def run_job(prop, spec, job, tier, workdir, workers, seed, known_open):
             cmd += ["-" + k, str(o[k])]
         if o["relaxtrunc"]:
             cmd += ["-relaxtrunc"]
+        if tier == "thorough":
+            cmd += ["-thorough"]
         t0 = time.time()
         r = sh(cmd, cwd=ROOT)
         if r.returncode != 0 or not os.path.exists(out):
